@@ -30,7 +30,7 @@ THEOREMS = ['C12_expand_shorthand', 'C12_interpolates_evenly_spaced',
             'C12_converted_iff_nonzero', 'C12_data_card_max_zero',
             'C12_chain_zero_iff', 'C12_option_tokens_app',
             'C12_last_value_app', 'C12_like_written_zero_iff',
-            'C12_like_written_local_zero_iff',
+            'C12_like_written_local_zero_iff', 'C12_fill_array_read_locally',
             'C12_cell_card_zero_iff',
             'C12_plain_card_zero_iff', 'C12_conv_keys_not_skipped',
             'C12_written_volumes', 'C12_generated_converted_iff',
